@@ -41,6 +41,26 @@ HelperLine(id, fn, args, exp, sc) ==
   ToJson([id |-> id, fn |-> fn, args |-> args, rule |-> Null, data |-> Null,
           exp |-> [ok |-> exp.ok, v |-> exp.v, log |-> <<>>], sc |-> sc, fl |-> NoFlags]) \o "\n"
 
+\* ---- the pinned domain of the statement
+\* path shape: "odd" when it has an empty segment, a trailing unescaped dot or a trailing lone backslash
+RECURSIVE ShapeLoop(_, _, _, _)
+ShapeLoop(s, i, sliceEmpty, escape) ==
+  IF i > Len(s) THEN (IF escape \/ sliceEmpty THEN "odd" ELSE "ok")
+  ELSE IF escape THEN ShapeLoop(s, i + 1, FALSE, FALSE)
+  ELSE IF s[i] = 92 THEN ShapeLoop(s, i + 1, sliceEmpty, TRUE)
+  ELSE IF s[i] = 46 THEN (IF sliceEmpty THEN "odd" ELSE ShapeLoop(s, i + 1, TRUE, FALSE))
+  ELSE ShapeLoop(s, i + 1, FALSE, FALSE)
+PathShape(s) == IF s = <<>> THEN "ok" ELSE ShapeLoop(s, 1, TRUE, FALSE)
+\* an index segment must be the canonical decimal text of its integer ("+1", "01", "-0" are left open)
+CanonicalSeg(seg) ==
+  LET ix == ParseI64(seg)
+  IN ix = NoIndex \/ seg = (IF ix.neg THEN <<45>> ELSE <<>>) \o DecDigits(ix.mag)
+PinnedKey(k) ==
+  CASE k.t = "z" -> TRUE
+    [] k.t = "s" -> PathShape(k.v) = "ok" /\ \A j \in DOMAIN SplitWithEscape(k.v, 46) : CanonicalSeg(SplitWithEscape(k.v, 46)[j])
+    [] k.t = "n" -> k.k = "i"
+    [] OTHER -> FALSE
+
 \* the 35 operator names in a fixed order
 OpSeq == <<K_eq, K_ne, K_seq, K_sne, K_not, K_notnot, K_lt, K_lte, K_gt, K_gte, K_add, K_sub, K_mul, K_div, K_mod,
            K_max, K_min, K_merge, K_in, K_cat, K_substr, K_log, K_var, K_missing, K_missing_some,
